@@ -70,6 +70,7 @@ class Checker:
         self.pending = {}        # id(node) -> (node, env, decl, receiver-substitution)
         self._want = {}
         self.genv = None
+        self.gen_expect = None   # id(expr) -> [requested type term]  (set by the C01 generate_expr monitor)
         self.f = program.bt_factory
         self.T = terms.Table.from_program(program)
         self.findings = []
@@ -1024,6 +1025,17 @@ class Checker:
         ast = self.ast
         if e is None:
             return
+        if self.gen_expect and id(e) in self.gen_expect:
+            # the type Generator.generate_expr was asked for when it produced this very node
+            for want in self.gen_expect.pop(id(e)):
+                if isinstance(e, ast.BottomConstant) and e.t is None:
+                    self.skip('GENEXPR', 'untyped-bottom')
+                elif want[0] in terms.UNJUDGED_KINDS or terms.has_kind(want, ('w',)):
+                    self.skip('GENEXPR', 'requested-type-not-judgeable')
+                elif not (terms.free_vars(want) <= env.tvars):
+                    self.skip('GENEXPR', 'requested-type-mentions-variable-out-of-scope-here')
+                else:
+                    self.expect('GENEXPR', e, want, env, 'generate_expr(%s)' % terms.term_str(want))
         if isinstance(e, ast.Variable):
             if env.lookup(str(e.name)) is None:
                 self.bad('RESOLVE', 'variable %s does not resolve to a visible declaration' % e.name, e,
